@@ -9,8 +9,9 @@ MANIFEST = dict(
     text="Coq theorems (all token lists, all four options, all paths): every match strategy of a glob set answers "
          "as the glob's regex meaning (strategy_eq_regex; refuted for the pinned file_name by a witness = defect D3, "
          "proved for the repaired one), GlobSet::matches = ascending duplicate-free indices of the individually "
-         "matching globs (set_eq_members), is_match = exists, the parser is total and never panics, and the regex "
-         "meaning equals an inductive component-level reading of the documented syntax. Tie to the code: extracted "
+         "matching globs (set_eq_members), GlobSet::is_match = some member matches (set_is_match_eq_exists), the parser is "
+         "total and never panics, and on the text of every glob of the documented alternate-free syntax it yields the "
+         "documented tokens (parse_documented_syntax). Tie to the code: extracted "
          "model vs globset (tokens, strategy, error kind via hooks; is_match of matcher and set on ALL paths over "
          "{a,b,.,/,-,A} up to length 5 plus random long/non-UTF-8 paths), plus an independent brace-expanding "
          "backtracking matcher written from the documented syntax as oracle.",
